@@ -9,20 +9,11 @@ from . import coretypes as ct
 from . import array_folds as af
 from .common import is_name, params
 
-EXPLANATION = (
-    "Static rules on core/array.py: (R1) every arithmetic dunder resolves to _binary_op(<ufunc>, self, other[, strict]"
-    "[, out=self]) per the Python data-model operator table, composites (k*a, k/a, a**k, -a) evaluated in a rational "
-    "quantity algebra; (R2) on every path of _binary_op the operands are brought to a common unit before the numpy call "
-    "(strict: always; non-strict: attempted, only DimensionalityError swallowed) and no operand is written; (R3) the unit "
-    "of a product/quotient/power/reciprocal is derived by applying the same numpy function to the operand units; (R4) the "
-    "dtype predicate that decides whether a result keeps its unit is evaluated over a model of all numpy dtypes; (R5) "
-    "Array.to scales by old/new and is the identity for equal units; (R6) operand coercion and unit extraction helpers "
-    "pass non-unit operands through unchanged.")
-NOT_DECIDED = ("numeric values computed by numpy, conversion factors computed by pint, broadcasting shapes; that "
-               "Array(rhs) coerces every operand kind to the right numbers")
-TRUSTED = ("CPython ast", "numpy/pint behave as documented", "S4 operator table (sa/specs/operators.py)",
-           "numpy dtype model (sa/specs/npmodel.py)")
+EXPLANATION = 'Folds of core/array.py with the Array class itself interpreted over buffer/unit/dtype tokens: (R1) every arithmetic dunder evaluated with _binary_op stubbed: operation, operand order, strictness and out=self per the Python data-model table S4; composites (k*a, k/a, a**k, -a) in a rational quantity algebra; (R2) _binary_op over right-operand kinds {Array same/compatible/incompatible unit, number, ndarray, Quantity, dimensionless family} x strictness: the right operand reaches numpy converted to the left unit (values scaled by the exact unit ratio), incompatible dimensions raise, operands unchanged; Array.__init__ over value kinds; (R3/R4/R6) _wrap_numpy over function names x the 16-dtype model x operand kinds: unit derived by applying the function to the operand units for the multiplicative table, inherited otherwise, every numeric dtype keeps its unit, buffers/units extracted from every argument; (R5) Array.to over unit relations x dtypes: identity for equal units, exact ratio, no cast back to an integer dtype, receiver untouched.'
+NOT_DECIDED = 'numeric values computed by numpy, conversion factors computed by pint, broadcasting shapes'
+TRUSTED = ('CPython ast', 'numpy/pint behave as documented', 'S4 operator table (sa/specs/operators.py)', 'numpy dtype model (sa/specs/npmodel.py)', 'the interpreter sa/models.py')
 
+TECHNIQUE = 'static analysis: abstract interpretation of the Array class over unit/buffer/dtype tokens (finite-case folding), exact monomial algebra for unit ratios'
 
 def r1_operator_table(run, tree):
     run.rule("C02.R1", "operator table: dunder -> _binary_op(ufunc, self, other, strict, out)", "S4 table + sibling agreement",
